@@ -82,6 +82,21 @@ def via_route(ctx, sc, route):
         if extra:
             s.load_ref()
         return s.to_cell()
+    if route == 'builder_reused':
+        # the cell is finished, then its builder goes on being used (another reference, more bits, a second cell):
+        # the finished cell must keep describing - and hashing - what it held when it was finished
+        b = Builder()
+        if len(sc.bits):
+            b.store_bits(sc.bits)
+        for r in sc.refs:
+            b.store_ref(to_real(r, via='builder'))
+        c = b.end_cell()
+        if len(sc.refs) < 4:
+            b.store_ref(Builder().store_uint(2, 2).end_cell())
+        if len(sc.bits) < 1023:
+            b.store_bit(1)
+        b.end_cell()
+        return c
     if route == 'boc':
         return Cell.one_from_boc(base.to_boc())
     if route == 'plain_bitarray':
@@ -168,7 +183,7 @@ QUICK_N = sorted(set(list(range(0, 18)) + [23, 24, 25, 31, 32, 33, 63, 64, 65, 7
                                             1007, 1008, 1009] + list(range(1015, 1024))))
 SHAPES = ['leaves0', 'leaves1', 'leaves2', 'leaves3', 'leaves4', 'chain1', 'chain2', 'chain255', 'chain256', 'shared2', 'shared4',
           'diamond', 'uneven']
-ROUTES = ['ctor', 'builder', 'copy', 'parse_to_cell', 'to_builder', 'slice_consumed', 'boc', 'plain_bitarray']
+ROUTES = ['ctor', 'builder', 'copy', 'parse_to_cell', 'to_builder', 'slice_consumed', 'boc', 'plain_bitarray', 'builder_reused']
 
 
 def instances(tier, seed):
